@@ -40,19 +40,11 @@
 (* (RVTrace.tla: a mismatch is attributed to a set of deviations only when  *)
 (* the deviating interpreter reproduces amoco's whole post-state).          *)
 (***************************************************************************)
-EXTENDS BitVec
+EXTENDS BVWire
 
 CONSTANT XLEN
 
 LOGX == CHOOSE k \in 1..6 : Pow2(k) = XLEN            \* bits of a shift amount
-
-(* value of a short bit-vector as a natural (Horner, MSB first) *)
-RECURSIVE BNatR(_, _, _)
-BNatR(v, i, acc) == IF i < 1 THEN acc ELSE BNatR(v, i - 1, 2 * acc + v[i])
-BNat(v) == BNatR(v, Len(v), 0)
-RECURSIVE NBitsR(_, _, _)
-NBitsR(n, w, acc) == IF Len(acc) = w THEN acc ELSE NBitsR(n \div 2, w, Append(acc, n % 2))
-NBits(n, w) == NBitsR(n, w, <<>>)                     \* natural -> w bits
 
 Sx(v) == IF Len(v) >= XLEN THEN Trunc(v, XLEN) ELSE Sext(v, XLEN)
 Zx(v) == IF Len(v) >= XLEN THEN Trunc(v, XLEN) ELSE Zext(v, XLEN)
@@ -236,9 +228,11 @@ Exec(d, a, b, pc, m, Devs) ==
       a32  == Trunc(a, 32)
       b32  == Trunc(b, 32)
       link == IF d.rd = 0 THEN <<>> ELSE <<nxt>>
-  IN CASE d.op = "LUI"   -> Wr(imm)
-       [] d.op = "AUIPC" -> Wr(IF DevOn("AuipcNoPc") THEN imm
-                               ELSE IF DevOn("AuipcFromNextPc") THEN Add(nxt, imm) ELSE Add(pc, imm))
+      \* U-immediate: the 32-bit value imm[31:12] << 12, sign-extended to XLEN
+      uimm == IF DevOn("UImmZeroExtended") /\ XLEN > 32 THEN Zx(Trunc(imm, 32)) ELSE imm
+  IN CASE d.op = "LUI"   -> Wr(uimm)
+       [] d.op = "AUIPC" -> Wr(IF DevOn("AuipcNoPc") THEN uimm
+                               ELSE IF DevOn("AuipcFromNextPc") THEN Add(nxt, uimm) ELSE Add(pc, uimm))
        [] d.op = "JAL"   -> Eff(link, Add(pc, imm), <<>>)
        [] d.op = "JALR"  ->
             \* target = (rs1 + imm) with bit 0 cleared; rs1 is the value before rd is written
@@ -292,14 +286,4 @@ Exec(d, a, b, pc, m, Devs) ==
 NoEffect(pc) == Eff(<<>>, pc, <<>>)
 ExecD(d, a, b, pc, m, Devs) == IF "Unimplemented" \in Devs THEN NoEffect(pc) ELSE Exec(d, a, b, pc, m, Devs)
 
------------------------------------------------------------------------------
-(* wire format: a value of width w as little-endian 16-bit limbs (TLC integers are 32-bit) *)
-P16 == <<1, 2, 4, 8, 16, 32, 64, 128, 256, 512, 1024, 2048, 4096, 8192, 16384, 32768>>
-NLimbs(w) == (w + 15) \div 16
-FromLimbs(l, w) == [i \in 1..w |-> (l[((i - 1) \div 16) + 1] \div P16[((i - 1) % 16) + 1]) % 2]
-ToLimbs(v) == LET w == Len(v) IN
-              [k \in 1..NLimbs(w) |-> BNat(Slice(v, 16 * (k - 1), IF 16 * k <= w THEN 16 ELSE w - 16 * (k - 1)))]
-(* bytes (naturals 0..255), little-endian, <-> bit-vector *)
-BytesToBV(bs) == [i \in 1..(8 * Len(bs)) |-> (bs[((i - 1) \div 8) + 1] \div P16[((i - 1) % 8) + 1]) % 2]
-BVToBytes(v) == [k \in 1..(Len(v) \div 8) |-> BNat(Slice(v, 8 * (k - 1), 8))]
 =============================================================================
